@@ -4,6 +4,7 @@
 
 from .node import Node
 from .function_op import Statement
+from .operation import js_between_parentheses
 from typing import List, Optional, cast
 from ..util import code_indentation, vsprintf
 
@@ -50,8 +51,7 @@ class RepeatOperation(Node):
     def generate_js(self, indentation: int, factory_method: bool) -> str: 
         cond = cast(Node, self.condition)
         str_cond: str = cond.generate_js(0, factory_method)
-        if not str_cond.startswith('('):
-            str_cond = vsprintf("(%s)", str_cond)
+        str_cond = js_between_parentheses(cond, str_cond)
 
         if self.type == 'while':
             code = vsprintf("while %s {\n", str_cond)
@@ -101,8 +101,7 @@ class IfThenOperation(Node):
     def generate_js(self, indentation: int, factory_method: bool) -> str: 
         cond = cast(Node, self.condition)
         str_cond: str = cond.generate_js(0, factory_method)
-        if not str_cond.startswith('('):
-            str_cond = vsprintf("(%s)", str_cond)
+        str_cond = js_between_parentheses(cond, str_cond)
 
         code = vsprintf("if %s {\n", str_cond)
         for st in self.if_statements_list:
